@@ -170,12 +170,12 @@ func runLib(c LibCase) (*libObs, error) {
 	o.exitedBy = "goodbye"
 	select {
 	case <-outDone:
-	case <-time.After(10 * time.Second):
+	case <-time.After(60 * time.Second):
 		o.exitedBy = "eof"
 		stdin.Close()
 		select {
 		case <-outDone:
-		case <-time.After(10 * time.Second):
+		case <-time.After(60 * time.Second):
 			o.exitedBy = "killed"
 			syscall.Kill(-pgid, syscall.SIGKILL)
 			<-outDone
@@ -185,7 +185,7 @@ func runLib(c LibCase) (*libObs, error) {
 	go func() { werr <- cmd.Wait() }()
 	select {
 	case <-werr:
-	case <-time.After(10 * time.Second):
+	case <-time.After(60 * time.Second):
 		o.exitedBy = "killed"
 		syscall.Kill(-pgid, syscall.SIGKILL)
 		<-werr
